@@ -118,7 +118,7 @@ def gen_step(rng, st: State):
             if cand and len(keys) >= 2:
                 ks = rng.sample(cand, 1 if rng.random() < 0.8 or len(keys) < 3
                                 else min(2, len(cand)))
-                append = bool(st.index) and rng.random() < 0.4
+                append = bool(st.index) and rng.random() < (0.6 if len(st.index) > 1 else 0.4)
                 return {"m": m, "keys": ks, "drop": rng.random() < 0.8, "append": append}
         if m == "reset_index" and st.index:
             names = list(st.index)
